@@ -100,8 +100,11 @@ class UntypedAtomic(AnyAtomicType):
             case AnyAtomicType():
                 if hasattr(other, 'make'):
                     return op(type(other).make(self.value, parser=self.parser), other)
-                else:
+                try:
                     return op(type(other)(self.value), other)
+                except ArithmeticError:
+                    msg = "{!r} cannot be cast to {!r}"
+                    raise ValueError(msg.format(self.value, type(other))) from None
             case _:
                 return cast(bool, NotImplemented)
 
